@@ -383,6 +383,24 @@ def run(ck, tier):
                 ck.ob('R5', si.qn, 'identity[id] = value stores the caller\'s object itself', isinstance(n_.value, ast.Name) and n_.value.id == valp,
                       detail='identity-setitem-converts', loc=cx.floc(si, n_),
                       message='ModbusDeviceIdentification.__setitem__ stores `%s` instead of the value it was given' % U(n_.value)[:60])
+    ci = cx.idx.find_method(ident, '__init__')
+    if ci is not None and len(ci.params) > 1:
+        # the constructor: what it stores for an id is the object of the dictionary it was given -- `info[key]`, or the value
+        # variable of a loop over its items -- not something computed from it
+        ck.saw('functions', ci.qn)
+        srcp = ci.params[1]
+        itemvars = set()
+        for lp in [n_ for n_ in ast.walk(ci.node) if isinstance(n_, ast.For)]:
+            if isinstance(lp.target, (ast.Tuple, ast.List)) and len(lp.target.elts) == 2 and isinstance(lp.target.elts[1], ast.Name) and srcp in U(lp.iter):
+                itemvars.add(lp.target.elts[1].id)
+        for n_ in ast.walk(ci.node):
+            if isinstance(n_, ast.Assign) and any(isinstance(t, ast.Subscript) and U(t.value).endswith('__data') for t in n_.targets):
+                n5 += 1
+                v = n_.value
+                same = (isinstance(v, ast.Subscript) and isinstance(v.value, ast.Name) and v.value.id == srcp) or (isinstance(v, ast.Name) and v.id in itemvars)
+                ck.ob('R5', ci.qn, 'the constructor stores the objects of the dictionary it is given, unchanged', same, detail='identity-init-converts', loc=cx.floc(ci, n_),
+                      message='ModbusDeviceIdentification.__init__ stores `%s` instead of the configured object: what Read Device Identification returns is not what the '
+                              'application configured (bytes become their repr, numbers become text of another length)' % U(v)[:60])
     up = cx.idx.find_method(ident, 'update')
     if up is not None and len(up.params) > 1:
         ck.saw('functions', up.qn)
